@@ -8,3 +8,5 @@ open HmcVerif.C17
 #print axioms param_layout
 #print axioms layout_indices
 #print axioms gradient_is_derivative
+#print axioms coincident_station_term_dropped
+#print axioms dirTerm_of_pos
